@@ -913,6 +913,25 @@ func genFault(seed uint64, prop, tier string) *Plan {
 			continue
 		}
 		o = maybeSynth(g, corpusIndex(), o, 0.3)
+		if o.Kind != KOCSP && g.Chance(0.1) {
+			// an object dated centuries away from every window (dates only GeneralizedTime can express; before 1678 and
+			// after 2262 an instant does not fit a 64-bit count of nanoseconds)
+			synthForceGenTime = true
+			var so *ObjSpec
+			if o.Kind == KCRL {
+				so = synthCRL(g, corpusIndex())
+			} else {
+				so = synthCert(g, corpusIndex())
+			}
+			synthForceGenTime = false
+			if so != nil {
+				far := time.Date(pick(g, []int{1600, 1677, 2263, 2300, 2500}), 6, 1, 12, 0, 0, 0, time.UTC)
+				if v := redate(so, far); v != nil {
+					p.Objects = append(p.Objects, *v)
+					continue
+				}
+			}
+		}
 		if g.Chance(0.75) {
 			if v := redateAny(o, pick(g, probeDates)); v != nil {
 				o = v
